@@ -144,8 +144,11 @@ def frame_construction(ctx, I, M, H, comp, loc):
                           "bidirectional angle to e_i(d) (first wins ties), s the sign of their dot product; the column looked up is the one the search selected")
     hv = [h for h in I.havocs if len(h) > 4 and h[2].startswith("src/pydrex/diagnostics.py")]
     if len(hv) != 3:
-        ctx.ob("C12.frame", "three data-dependent eigenvector look-ups", False,
-               f"{len(hv)} data-dependent look-up(s) into the eigenvector matrices: the averaged eigenvector is no longer the one selected by the nearest-axis search", loc)
+        ctx.ob("C12.frame", "three data-dependent eigenvector look-ups", False if len(hv) == 0 else "inconclusive",
+               "no eigenvector of the deviatoric contraction is looked up depending on the data: the two eigenvector sets are paired by a fixed index, but the two "
+               "contractions order the symmetry axes differently in general (the pairing must be by nearest axis)" if len(hv) == 0 else
+               f"{len(hv)} data-dependent look-up(s) into the eigenvector matrices: the construction of the symmetry frame is not in the form this rule can follow "
+               "(one look-up per frame column, selected by a search over the three candidate axes)", loc)
         return
     # published contractions (Browaeys & Chevrot 2004, eq. 3.4/3.5) in Voigt components
     C = M
@@ -181,7 +184,7 @@ def frame_construction(ctx, I, M, H, comp, loc):
         k_, hsyms, hloc, base, idx = hv[i]
         src = idx[1].src if isinstance(idx, tuple) and len(idx) == 2 and isinstance(idx[1], Opaque) and idx[0] == slice(None) else None
         if src is None or not all(a is b or lift(a) == lift(b) for a, b in zip(base.flat, V.flat)):
-            ctx.ob("C12.frame", f"column {i}: look-up shape", False, "the data-dependent look-up is not a column of the v_ij eigenvector matrix", hloc)
+            ctx.ob("C12.frame", f"column {i}: look-up shape", "inconclusive", "the data-dependent look-up is not recognisably a column of the v_ij eigenvector matrix", hloc)
             continue
         di = D[:, i]
 
